@@ -224,18 +224,26 @@ func (e AEv) MarshalJSON() ([]byte, error) {
 func (e AEv) Key() string { return fmt.Sprint(e.A, e.B, e.VP, e.TP, e.TS) }
 
 var blockIDs = []types.BlockID{
-	{},                                    // 0 nil
+	{}, // 0 nil
 	{Hash: common.BytesToHash([]byte{1})}, // 1 malformed: a hash without part-set header
-	{Hash: common.BytesToHash([]byte{2}), PartsHeader: types.PartSetHeader{Total: 1, Hash: common.BytesToHash([]byte{0x21})}},
-	{Hash: common.BytesToHash([]byte{3}), PartsHeader: types.PartSetHeader{Total: 2, Hash: common.BytesToHash([]byte{0x31})}},
-	{Hash: common.BytesToHash([]byte{4}), PartsHeader: types.PartSetHeader{Total: 1, Hash: common.BytesToHash([]byte{0x41})}},
+	{Hash: common.BytesToHash([]byte{2}), PartsHeader: types.PartSetHeader{Total: 1, Hash: common.BytesToHash([]byte{0x21})}}, // 2 A
+	{Hash: common.BytesToHash([]byte{3}), PartsHeader: types.PartSetHeader{Total: 2, Hash: common.BytesToHash([]byte{0x31})}}, // 3 B
+	{Hash: common.BytesToHash([]byte{4}), PartsHeader: types.PartSetHeader{Total: 1, Hash: common.BytesToHash([]byte{0x41})}}, // 4 C
+	{Hash: common.BytesToHash([]byte{2}), PartsHeader: types.PartSetHeader{Total: 1, Hash: common.BytesToHash([]byte{0x22})}}, // 5 A's block hash, another part-set hash
+	{Hash: common.BytesToHash([]byte{2}), PartsHeader: types.PartSetHeader{Total: 3, Hash: common.BytesToHash([]byte{0x21})}}, // 6 A with another part-set total
 }
+
+// the specification's BKey: the order of BlockID.Key()
+var blockKeyRank = []int{0, 10, 20, 30, 40, 25, 20}
 var otherBlock = types.BlockID{Hash: common.BytesToHash([]byte{9}), PartsHeader: types.PartSetHeader{Total: 1, Hash: common.BytesToHash([]byte{0x91})}}
 
 func init() {
-	for i := 1; i < len(blockIDs); i++ {
-		if !(blockIDs[i-1].Key() < blockIDs[i].Key()) {
-			panic("the order of BlockID.Key() is not the numeric order of the specification's block ids")
+	for i := range blockIDs {
+		for j := range blockIDs {
+			ki, kj := blockIDs[i].Key(), blockIDs[j].Key()
+			if (blockKeyRank[i] < blockKeyRank[j]) != (ki < kj) || (blockKeyRank[i] == blockKeyRank[j]) != (ki == kj) {
+				panic("the order of BlockID.Key() is not the order BKey of the specification's block ids")
+			}
 		}
 	}
 }
